@@ -1,5 +1,5 @@
-\* quick: asl, <= 2 occurrences over KNames + 3 over K3Names, plain decoration + 3 rotating ones per sequence
-CONSTANTS Fixed = {} Prog = "asl" MaxOcc = 3 Alphabet = "all" Thin = 0 KThin = 3
+\* quick: asl, <= 2 occurrences over KNames + 3 over K3Names, plain decoration + 2 rotating ones per sequence
+CONSTANTS Fixed = {} Prog = "asl" MaxOcc = 3 Alphabet = "all" Thin = 0 KThin = 2
 SPECIFICATION SpecK
 INVARIANTS ShapeInv EmitK
 CHECK_DEADLOCK FALSE
